@@ -28,10 +28,15 @@ structure FReq where
   /-- `req.Body == http.NoBody` (HTTP/2 treats it as no body, HTTP/3 does not) -/
   noBody : Bool := false
   addGzip : Bool := false
+  /-- `cc.peerMaxHeaderListSize` (the peer's SETTINGS_MAX_HEADER_LIST_SIZE); `none` = no limit
+  (HTTP/3's writer computes the size but never checks it) -/
+  maxHeaderList : Option Nat := none
 deriving Repr
 
 inductive FErr
   | nonAsciiHost | invalidHost | invalidPath | invalidHeader
+  /-- `errRequestHeaderListSize`: refused BEFORE anything is encoded (counting pass) -/
+  | headerListTooLarge
 deriving Repr, DecidableEq
 
 def lc (s : String) : Bytes := s.toUTF8.toList
@@ -153,12 +158,19 @@ def regularKVs (fl : Flavor) (r : FReq) : List KV :=
 def wireOf (kvs : List KV) : List (Bytes × Bytes) :=
   kvs.flatMap fun kv => kv.values.map fun v => (lower kv.key, v)
 
+/-- `Σ hpack.HeaderField.Size()` = name length + value length + 32 per field (RFC 7541 §4.1). -/
+def headerListSize (fs : List (Bytes × Bytes)) : Nat :=
+  (fs.map fun f => f.1.length + f.2.length + 32).sum
+
 /-- The ordered `(name, value)` list written to the header block. -/
 def fields (fl : Flavor) (r : FReq) : Except FErr (List (Bytes × Bytes)) := do
   let host ← fieldHost r
   let path ← fieldPath r host
   if !headersValid (r.header.map fun kv => (kv.key, kv.values)) then throw .invalidHeader
-  return wireOf (pseudoKVs fl r host path ++ regularKVs fl r)
+  let out := wireOf (pseudoKVs fl r host path ++ regularKVs fl r)
+  match r.maxHeaderList with
+  | some lim => if headerListSize out > lim then throw .headerListTooLarge else return out
+  | none => return out
 
 def fieldsH2 (r : FReq) := fields .h2 r
 def fieldsH3 (r : FReq) := fields .h3 r
